@@ -22,7 +22,12 @@ type spxOutcome struct {
 // every point beyond the prefix is explored while the number of deviations
 // stays within bound. Level-1 subtrees are the unit of sharding; the root is
 // executed by every shard and accounted by shard 0.
-func spxSearch(c *fw.Ctx, what, name string, bound int, item *int64, exec func(prefix []int) spxOutcome) (capped bool, schedules, maxPts int) {
+//
+// level >= 0 restricts accounting and oracles to the executions with exactly
+// that many deviations (the shallower ones were judged by an earlier call with
+// a smaller bound: iterative deepening, so that a time budget cuts the deepest
+// level first and never a whole harness).
+func spxSearch(c *fw.Ctx, what, name string, bound, level int, item *int64, exec func(prefix []int) spxOutcome) (capped bool, schedules, maxPts int) {
 	var rec func(prefix []int, devs int, owned bool)
 	rec = func(prefix []int, devs int, owned bool) {
 		if capped {
@@ -33,7 +38,8 @@ func spxSearch(c *fw.Ctx, what, name string, bound int, item *int64, exec func(p
 			return
 		}
 		r := exec(prefix)
-		if owned || len(prefix) == 0 && c.Shard == 0 {
+		judge := level < 0 || devs == level || (level == 1 && devs == 0)
+		if judge && (owned || len(prefix) == 0 && c.Shard == 0) {
 			schedules++
 			if len(r.Points) > maxPts {
 				maxPts = len(r.Points)
@@ -45,8 +51,10 @@ func spxSearch(c *fw.Ctx, what, name string, bound int, item *int64, exec func(p
 			c.State(fw.Hash(name, r.Obs))
 			c.Outcome(name + ":" + fmt.Sprint(fw.Hash(r.Obs)%1000))
 		}
-		for _, v := range r.Viol {
-			c.Violate(v)
+		if judge {
+			for _, v := range r.Viol {
+				c.Violate(v)
+			}
 		}
 		if devs >= bound {
 			return
